@@ -116,7 +116,7 @@ def h_append(en, con, vals, site):
     vault, element = vals["self"], vals["str_or_element"]
     if not isinstance(element, ObjV):
         raise Unsupported("append of text")
-    if "__attrs" in vault.fields:
+    if not any(k.startswith("__items_") for k in vault.fields):
         return None      # attribute-model element (typed-value specs): children are not modelled
     kind = _kind_of_wrapper(element)
     t = _items(vault, kind)
